@@ -3,8 +3,10 @@
 (notes/r2caudit/REPORT.md) and later additions.  Every tests/cases/<name>.rs is a fake source file with its own
 one-module configuration (`//cfg:` lines, `@` = the file itself) and value cases:
   //case: <rust expression> ||| <gallina expression>          //grid: the same with {var} placeholders ||| var=v1,v2;..
+  //pcase: / //pgrid: the same for a PARTIAL generated function (option-valued, None = panic): the gallina expression must
+  evaluate to None exactly when the Rust expression panics, and to Some <the Rust value> otherwise.
 For every test the translator must EITHER refuse the file (fail closed) OR every case must evaluate (coqc, vm_compute) to
-the value the natively compiled Rust computes (Rust panics are skipped).  tests/EXPECT.txt pins which of the two happens,
+the value the natively compiled Rust computes (in //case: and //grid: lines Rust panics are skipped).  tests/EXPECT.txt pins which of the two happens,
 so that a construct that used to be translated does not silently start to be refused either (and vice versa).
 usage: selftest.py [--update-expect] [test names...]        work dir: .build/r2c-selftest"""
 import os, re, sys, glob, itertools, subprocess, json
@@ -32,10 +34,14 @@ for p in sorted(glob.glob(os.path.join(HERE, 'cases', '*.rs'))):
         l = l.strip()
         if l.startswith('//cfg:'):
             cfg.append(l[6:].strip())
-        elif l.startswith('//case:'):
-            a, b = l[7:].split('|||'); cases.append((a.strip(), b.strip()))
-        elif l.startswith('//grid:'):
-            a, b, g = l[7:].split('|||')
+        elif l.startswith('//case:') or l.startswith('//pcase:'):
+            part = l.startswith('//pcase:')
+            a, b = l[l.index(':') + 1:].split('|||'); cases.append((a.strip(), ('@P@' if part else '') + b.strip()))
+        elif l.startswith('//grid:') or l.startswith('//pgrid:'):
+            part = l.startswith('//pgrid:')
+            a, b, g = l[l.index(':') + 1:].split('|||')
+            if part:
+                b = '@P@' + b.strip()
             vs = []
             for part in g.split(';'):
                 part = part.strip()
@@ -92,7 +98,7 @@ def norm(s):
 
 for name, src, cfg, cs in run:
     txt = open(os.path.join(W, 'gen', 'T_%s.v' % name)).read()
-    ev = txt + '\nDefinition un (o : option Z) : Z := match o with Some v => v | None => (-999999) end.\n' + '\n'.join('Eval vm_compute in (%s).' % cb for _, cb in cs) + '\n'
+    ev = txt + '\n#[local] Existing Instance Casts.usize64_w.\nDefinition un (o : option Z) : Z := match o with Some v => v | None => (-999999) end.\nDefinition obind {A B} (o : option A) (f : A -> option B) : option B := match o with Some a => f a | None => None end.\n' + '\n'.join('Eval vm_compute in (%s).' % cb.replace('@P@', '') for _, cb in cs) + '\n'
     ef = os.path.join(W, 'evals', 'E_%s.v' % name)
     open(ef, 'w').write(ev)
     c = sh(['timeout', '300', 'coqc', '-Q', os.path.join(V, 'coq'), 'EG', ef])
@@ -104,7 +110,11 @@ for name, src, cfg, cs in run:
     bad = []
     for i, ((ra, cb), o) in enumerate(zip(cs, outs)):
         rv = rust.get('%s#%d' % (name, i), '?')
-        if rv != 'PANIC' and norm(rv) != norm(o):
+        if cb.startswith('@P@'):
+            want = 'None' if rv == 'PANIC' else ('Some ' + norm(rv)).strip()
+            if rv == '?' or norm(o) != want:
+                bad.append('%s => rust %s | coq %s' % (ra, rv, norm(o)))
+        elif rv != 'PANIC' and norm(rv) != norm(o):
             bad.append('%s => rust %s | coq %s' % (ra, rv, norm(o)))
     status[name] = 'ok' if not bad else 'DISAGREE'
     if bad:
